@@ -71,6 +71,12 @@ def insertPair (x : Nat × Nat) : List (Nat × Nat) → List (Nat × Nat)
 
 def sortPairs (l : List (Nat × Nat)) : List (Nat × Nat) := l.foldr insertPair []
 
+def insertNat (x : Nat) : List Nat → List Nat
+  | [] => [x]
+  | y :: r => if x ≤ y then x :: y :: r else y :: insertNat x r
+
+def sortNats (l : List Nat) : List Nat := l.foldr insertNat []
+
 def showPairs (l : List (Nat × Nat)) : String :=
   String.intercalate "," (l.map fun p => s!"({p.1},{p.2})")
 
@@ -88,8 +94,10 @@ def showTables (s : St) : String :=
   let ce := String.intercalate "," (s.certs.map fun c =>
     let e := match c.entity with | some e => toString e | none => "g"
     let p := match c.parent with | some p => toString p | none => "n"
-    s!"({e},{c.epoch},{p})")
-  let sg := showPairs (sortPairs (s.sigs.map fun r => (r.entity, r.party)))
+    s!"({e},{c.epoch},{p},{showNats (sortNats c.signers)})")
+  let sg := String.intercalate "," ((sortPairs (s.sigs.map fun r => (r.entity, r.party))).map fun p =>
+    let sigma := ((s.sigs.find? fun r => r.entity == p.1 && r.party == p.2).map (·.sigma)).getD 0
+    s!"({p.1},{p.2},{sigma})")
   let bf := showPairs (sortPairs (s.buf.map fun b => (b.disc, b.sig.party)))
   let se := showPairs s.ses
   s!"om=[{oms}]ce=[{ce}]sg=[{sg}]bf=[{bf}]se=[{se}]"
